@@ -161,7 +161,8 @@ def factor_cases():
     # whether another option is given)
     singles = list(cases[1:])
     for other in (dict(periodic=[1]), dict(reflective=[1]), dict(sample="rwm", resample="syst", vectorize=True),
-                  dict(volume_variation=0.5, ess_ratio=2.0), dict(periodic=[0], reflective=[1], blobs_dtype="float")):
+                  dict(volume_variation=0.5, ess_ratio=2.0), dict(volume_variation=0.5), dict(ess_ratio=0.7), dict(n_particles=5),
+                  dict(periodic=[0], reflective=[1], blobs_dtype="float")):
         for c in singles:
             changed = [k for k in c if c[k] != BASE.get(k, None) or k not in BASE]
             if any(k in other for k in changed):
@@ -274,7 +275,11 @@ def run_valid(args):
         kw["reflective"] = [1]
     elif row["bc"] == "mixed":
         kw["periodic"], kw["reflective"] = [1], [0]
-    if row["pool"] == "int2":
+    if row["pool"] == "int1":
+        kw["pool"] = 1   # one process
+    elif row["pool"] == "npint2":
+        kw["pool"] = np.int64(2)
+    elif row["pool"] == "int2":
         kw["pool"] = 2   # the integer form: the library starts its own worker processes
     elif row["pool"] == "lazy":
         kw["pool"] = LazyPool()
@@ -338,10 +343,14 @@ def check_valid(run, tier, rng, work):
         r = dict(rows[k % len(rows)], pool="int2", like="scalar", save_every=sv)
         rows.append(r)
     jobs = [(r, rng.randrange(10 ** 6), str(work / f"r{i}")) for i, r in enumerate(rows)]
-    par = [j for j in jobs if j[0]["pool"] != "int2"]
+    # "a number of processes" includes 1, and integers that come out of numpy
+    rows_extra = [dict(rows[0], pool="int1", like="scalar", save_every=None), dict(rows[1 % len(rows)], pool="int1", like="blobs", save_every=2),
+                  dict(rows[2 % len(rows)], pool="npint2", like="scalar", save_every=None)]
+    jobs += [(r, rng.randrange(10 ** 6), str(work / f"x{i}")) for i, r in enumerate(rows_extra)]
+    par = [j for j in jobs if j[0]["pool"] not in ("int2", "npint2")]
     with mp.get_context("fork").Pool(min(14, os.cpu_count() or 4)) as pool:
         results = pool.map(run_valid, par)
-    results += [run_valid(j) for j in jobs if j[0]["pool"] == "int2"]
+    results += [run_valid(j) for j in jobs if j[0]["pool"] in ("int2", "npint2")]
     for res in results:
         run.case(key=("valid", str(res["row"])), nontrivial=True)
         what = dict(config=res["row"], random_state=res["seed"])
